@@ -1,16 +1,20 @@
 package main
 
-// C07 facts: which functions of package bfe_server touch the connection counters / request.Trans.Backend at all,
-// and how FinishReq releases the backend:
-//   connSites : for every non-test, non-verif file of bfe_server, the (function, kind) pairs where kind is
-//       "inc"  a call  x.IncConnNum()          "dec"  a call  x.DecConnNum()
-//       "set"  a call  x.SetRequestTransport() "clear" an assignment  x.Trans.Backend = nil
-//   finishReqDecDeferredFirst : FinishReq's DecConnNum sits in a `defer func() {...}()` that is registered BEFORE the
-//       HandleRequestFinish callback block (so every way out of that block - the early return on a Finish
-//       verdict, a panicking filter - still releases the backend)
-// Callback points whose verdicts are consulted outside clusterInvoke / FinishReq (HandleBeforeLocation,
-// HandleFoundProduct, HandleAfterLocation, HandleReadResponse in ServeHTTP) therefore cannot change a counter:
-// ServeHTTP has no site.
+// C07 facts (semantic, not syntactic): WHERE package bfe_server touches the connection counters / request.Trans.Backend
+// and HOW FinishReq releases the backend.  Same-package helper functions, methods and local closures are followed
+// transitively (by name, cycle-safe), `defer f(x)` is treated like `defer func() { f(x) }()`, so that helper
+// extraction, renamed locals, if/switch restructuring and reordered statements give the IDENTICAL Generated file.
+//
+//   invokeKinds  : the set of site kinds reachable from clusterInvoke   (expected: clear dec inc set)
+//   finishKinds  : the set of site kinds reachable from FinishReq       (expected: dec)
+//       kinds: "inc" x.IncConnNum()  "dec" x.DecConnNum()  "set" x.SetRequestTransport(..)
+//              "clear" x.Trans.Backend = nil   "assign" x.Trans.Backend = <other>
+//   counterSitesConfined : every function that contains a site directly is clusterInvoke, FinishReq, or a helper all
+//       of whose callers (transitively) are - i.e. nothing else in the package (ServeHTTP and the callback points
+//       it consults, conn.serve, the protocol handlers) can change a counter
+//   finishReqDecDeferredFirst : a top-level `defer` of FinishReq reaches a DecConnNum and is registered before the
+//       first statement that can leave the function or run the HandleRequestFinish filters (a `return` or a call of
+//       FilterResponse), so every way out of the callback block still releases the backend
 
 import (
 	"fmt"
@@ -21,6 +25,48 @@ import (
 	"strings"
 )
 
+type c07Func struct {
+	name   string
+	decl   *ast.FuncDecl
+	direct map[string]bool // site kinds directly in the body (closures included)
+	calls  map[string]bool // names of same-package functions / methods / local closures called
+	locals map[string]*ast.FuncLit
+}
+
+func c07Sites(n ast.Node, direct map[string]bool, calls map[string]bool, exprStr func(ast.Node) string) {
+	ast.Inspect(n, func(nd ast.Node) bool {
+		switch v := nd.(type) {
+		case *ast.CallExpr:
+			switch f := v.Fun.(type) {
+			case *ast.SelectorExpr:
+				switch f.Sel.Name {
+				case "IncConnNum":
+					direct["inc"] = true
+				case "DecConnNum":
+					direct["dec"] = true
+				case "SetRequestTransport":
+					direct["set"] = true
+				default:
+					calls[f.Sel.Name] = true
+				}
+			case *ast.Ident:
+				calls[f.Name] = true
+			}
+		case *ast.AssignStmt:
+			for _, l := range v.Lhs {
+				if strings.HasSuffix(exprStr(l), ".Trans.Backend") {
+					if len(v.Rhs) == 1 && exprStr(v.Rhs[0]) == "nil" {
+						direct["clear"] = true
+					} else {
+						direct["assign"] = true
+					}
+				}
+			}
+		}
+		return true
+	})
+}
+
 func init() {
 	register("C07", func(repo string) (string, error) {
 		dir := filepath.Join(repo, "bfe_server")
@@ -28,9 +74,8 @@ func init() {
 		if err != nil {
 			return "", err
 		}
-		var sites []string
-		deferredFirst := false
-		sawFinish := false
+		funcs := map[string][]*c07Func{}
+		var all []*c07Func
 		for _, e := range ents {
 			n := e.Name()
 			if !strings.HasSuffix(n, ".go") || strings.HasSuffix(n, "_test.go") || strings.HasPrefix(n, "zz_verif") {
@@ -40,64 +85,171 @@ func init() {
 			if err != nil {
 				return "", err
 			}
+			es := func(x ast.Node) string { return c08ExprString(fset, x) }
 			for _, d := range f.Decls {
 				fd, ok := d.(*ast.FuncDecl)
 				if !ok || fd.Body == nil {
 					continue
 				}
-				add := func(kind string) { sites = append(sites, fmt.Sprintf("(%s, %s)", leanStr(fd.Name.Name), leanStr(kind))) }
-				ast.Inspect(fd.Body, func(nd ast.Node) bool {
-					switch v := nd.(type) {
-					case *ast.CallExpr:
-						if s, ok := v.Fun.(*ast.SelectorExpr); ok {
-							switch s.Sel.Name {
-							case "IncConnNum":
-								add("inc")
-							case "DecConnNum":
-								add("dec")
-							case "SetRequestTransport":
-								add("set")
-							}
-						}
-					case *ast.AssignStmt:
-						for _, l := range v.Lhs {
-							if strings.HasSuffix(c08ExprString(fset, l), ".Trans.Backend") {
-								if len(v.Rhs) == 1 && c08ExprString(fset, v.Rhs[0]) == "nil" {
-									add("clear")
-								} else {
-									add("assign")
-								}
-							}
-						}
+				cf := &c07Func{name: fd.Name.Name, decl: fd, direct: map[string]bool{}, calls: map[string]bool{}, locals: map[string]*ast.FuncLit{}}
+				c07Sites(fd.Body, cf.direct, cf.calls, es)
+				funcs[cf.name] = append(funcs[cf.name], cf)
+				all = append(all, cf)
+			}
+		}
+		// kinds reachable from a function (same-package calls followed by name; closures are part of the body)
+		var reach func(name string, seen map[string]bool, out map[string]bool)
+		reach = func(name string, seen map[string]bool, out map[string]bool) {
+			if seen[name] {
+				return
+			}
+			seen[name] = true
+			for _, cf := range funcs[name] {
+				for k := range cf.direct {
+					out[k] = true
+				}
+				for c := range cf.calls {
+					if _, ok := funcs[c]; ok {
+						reach(c, seen, out)
 					}
-					return true
-				})
-				if fd.Name.Name == "FinishReq" {
-					sawFinish = true
-					// position of the defer that decrements vs. the first use of HandleRequestFinish
-					deferIdx, cbIdx := -1, -1
-					for i, st := range fd.Body.List {
-						txt := c08ExprString(fset, st)
-						if ds, ok := st.(*ast.DeferStmt); ok && strings.Contains(c08ExprString(fset, ds), "DecConnNum()") && deferIdx < 0 {
-							deferIdx = i
-						}
-						if strings.Contains(txt, "HandleRequestFinish") && cbIdx < 0 {
-							cbIdx = i
-						}
-					}
-					deferredFirst = deferIdx >= 0 && cbIdx >= 0 && deferIdx < cbIdx
 				}
 			}
 		}
-		if !sawFinish {
-			return "", fmt.Errorf("bfe_server.FinishReq not found")
+		kindsOf := func(name string) ([]string, error) {
+			if len(funcs[name]) == 0 {
+				return nil, fmt.Errorf("bfe_server.%s not found", name)
+			}
+			out := map[string]bool{}
+			reach(name, map[string]bool{}, out)
+			var l []string
+			for k := range out {
+				l = append(l, leanStr(k))
+			}
+			sort.Strings(l)
+			return l, nil
 		}
-		sort.Strings(sites)
+		inv, err := kindsOf("clusterInvoke")
+		if err != nil {
+			return "", err
+		}
+		fin, err := kindsOf("FinishReq")
+		if err != nil {
+			return "", err
+		}
+		// confinement
+		callers := map[string]map[string]bool{}
+		for _, cf := range all {
+			for c := range cf.calls {
+				if _, ok := funcs[c]; ok && c != cf.name {
+					if callers[c] == nil {
+						callers[c] = map[string]bool{}
+					}
+					callers[c][cf.name] = true
+				}
+			}
+		}
+		okSet := map[string]bool{"clusterInvoke": true, "FinishReq": true}
+		for changed := true; changed; {
+			changed = false
+			for name := range funcs {
+				if okSet[name] || len(callers[name]) == 0 {
+					continue
+				}
+				good := true
+				for c := range callers[name] {
+					if !okSet[c] {
+						good = false
+					}
+				}
+				if good {
+					okSet[name] = true
+					changed = true
+				}
+			}
+		}
+		confined := true
+		for _, cf := range all {
+			if len(cf.direct) > 0 && !okSet[cf.name] {
+				confined = false
+			}
+		}
+		// FinishReq: deferred decrement registered first
+		deferredFirst := false
+		for _, cf := range funcs["FinishReq"] {
+			locals := map[string]*ast.FuncLit{}
+			deferIdx, leaveIdx := -1, -1
+			reachesDec := func(call *ast.CallExpr) bool {
+				d, c := map[string]bool{}, map[string]bool{}
+				es := func(x ast.Node) string { return "" }
+				switch f := call.Fun.(type) {
+				case *ast.FuncLit:
+					c07Sites(f.Body, d, c, es)
+				case *ast.Ident:
+					if lit, ok := locals[f.Name]; ok {
+						c07Sites(lit.Body, d, c, es)
+					} else {
+						c[f.Name] = true
+					}
+				case *ast.SelectorExpr:
+					if f.Sel.Name == "DecConnNum" {
+						return true
+					}
+					c[f.Sel.Name] = true
+				}
+				out := map[string]bool{}
+				for k := range d {
+					out[k] = true
+				}
+				for name := range c {
+					if _, ok := funcs[name]; ok {
+						reach(name, map[string]bool{}, out)
+					}
+				}
+				return out["dec"]
+			}
+			for i, st := range cf.decl.Body.List {
+				if as, ok := st.(*ast.AssignStmt); ok && len(as.Lhs) == 1 && len(as.Rhs) == 1 {
+					if id, ok := as.Lhs[0].(*ast.Ident); ok {
+						if lit, ok := as.Rhs[0].(*ast.FuncLit); ok {
+							locals[id.Name] = lit
+							continue
+						}
+					}
+				}
+				if ds, ok := st.(*ast.DeferStmt); ok {
+					if deferIdx < 0 && reachesDec(ds.Call) {
+						deferIdx = i
+					}
+					continue
+				}
+				if leaveIdx < 0 {
+					leaves := false
+					ast.Inspect(st, func(nd ast.Node) bool {
+						switch v := nd.(type) {
+						case *ast.FuncLit:
+							return false
+						case *ast.ReturnStmt:
+							leaves = true
+						case *ast.CallExpr:
+							if s, ok := v.Fun.(*ast.SelectorExpr); ok && s.Sel.Name == "FilterResponse" {
+								leaves = true
+							}
+						}
+						return true
+					})
+					if leaves {
+						leaveIdx = i
+					}
+				}
+			}
+			deferredFirst = deferIdx >= 0 && (leaveIdx < 0 || deferIdx < leaveIdx)
+		}
 		var b strings.Builder
 		b.WriteString(header("C07", "bfe_server/*.go"))
-		b.WriteString("/-- (function, kind) for every IncConnNum / DecConnNum / SetRequestTransport call and every assignment to\n    x.Trans.Backend in package bfe_server (sorted) -/\n")
-		b.WriteString("def connSites : List (String × String) := [\n  " + strings.Join(sites, ",\n  ") + "\n]\n\n")
-		fmt.Fprintf(&b, "/-- FinishReq registers its deferred DecConnNum before the HandleRequestFinish callback block -/\ndef finishReqDecDeferredFirst : Bool := %v\n", deferredFirst)
+		fmt.Fprintf(&b, "/-- kinds of counter / Trans.Backend sites reachable from clusterInvoke (helpers followed), sorted set -/\ndef invokeKinds : List String := [%s]\n\n", strings.Join(inv, ", "))
+		fmt.Fprintf(&b, "/-- the same for FinishReq -/\ndef finishKinds : List String := [%s]\n\n", strings.Join(fin, ", "))
+		fmt.Fprintf(&b, "/-- every function with a site is clusterInvoke, FinishReq or a helper only they (transitively) call -/\ndef counterSitesConfined : Bool := %v\n\n", confined)
+		fmt.Fprintf(&b, "/-- FinishReq registers a defer reaching DecConnNum before anything that can return or run the filters -/\ndef finishReqDecDeferredFirst : Bool := %v\n", deferredFirst)
 		b.WriteString(footer("C07"))
 		return b.String(), nil
 	})
